@@ -1,7 +1,7 @@
 """C07 - deterministic scheduling (structural clauses, narrow)."""
 import re
 
-from gsa.cfg import Fn, S, is_call, walk, lit
+from gsa.cfg import Fn, S, SN, is_call, walk, lit
 from gsa import rules as R
 
 EXPL = ("Deterministic executor (every instantiation of the driver matrix: plain, det_id, det_parallel_break, no_pushes, "
@@ -292,8 +292,8 @@ def winners(ctx, fx):
         det = []
         for e in confl:
             t = e.get("init")
-            s = S(t, al)
-            ok = isinstance(t, dict) and t.get("k") == "bin" and t.get("op") == "<" and \
+            s = SN(t, al)       # a > b is spelled b < a
+            ok = isinstance(t, dict) and t.get("k") == "bin" and t.get("op") in ("<", ">") and \
                 re.fullmatch(r"\(other->(item\.)?id < this->(item\.)?id\)", s)
             if not ok:
                 det.append("conflict decided by %s" % s)
@@ -323,11 +323,11 @@ def winners(ctx, fx):
         det = []
         if fields != {"parent", "count"}:
             det.append("ordering reads %s" % sorted(fields))
-        rets = [S(e.get("e")) for _, e in fn.events(lambda e: e["k"] == "ret")]
+        rets = [SN(e.get("e")) for _, e in fn.events(lambda e: e["k"] == "ret")]
         if sorted(rets) != sorted(["true", "(this->count < o.count)", "false"]):
             det.append("returns %s" % rets)
-        lt = lambda t: S(t) == "(this->parent < o.parent)"
-        eq = lambda t: S(t) == "(this->parent == o.parent)"
+        lt = lambda t: SN(t) == "(this->parent < o.parent)"
+        eq = lambda t: SN(t) in ("(this->parent == o.parent)", "(o.parent == this->parent)")
         rt = lambda e: e.get("k") == "ret" and S(e.get("e")) == "true"
         rc = lambda e: e.get("k") == "ret" and "count" in S(e.get("e"))
         if fn.guarded_positions(rt, lt, True) or fn.guarded_positions(rc, eq, True):
